@@ -440,6 +440,8 @@ def admission_scenario(rng, idx, tag):
             deny = [prefix(x) for x in pair] + deny[:1]
         else:
             allow = [prefix(x) for x in pair] + allow[:1]
+    if len(secrets) >= 2 and rng.random() < 0.1:
+        secrets[rng.randrange(len(secrets) - 1)]["key"] = ""           # a scope (not the last) whose shared secret is the empty string
     cfg = {"secrets": secrets, "users": users, "deny": deny, "allow": allow}
     cands = addr_candidates(rng, allp + [p["s"] for p in deny + allow])
     rng.shuffle(cands)
